@@ -6,7 +6,7 @@ from .ty import SV, fresh
 from . import theory as TH
 from .core import Unsupported, quick_unsat, exc_matches
 
-MUTATORS = {"append", "remove", "extend", "add", "update", "discard", "clear", "pop", "insert", "sort"}
+MUTATORS = {"append", "remove", "extend", "add", "update", "discard", "clear", "pop", "popleft", "insert", "sort"}
 
 
 class StmtMixin:
@@ -286,6 +286,17 @@ class StmtMixin:
                             names.add(r[1])
                     else:
                         fields.add((r[1], r[2]))
+            elif isinstance(n, ast.Call) and isinstance(n.func, ast.Name) and p.env.get(n.func.id, SV(T.NONE)).ty == T.BOUND:
+                bm = p.env[n.func.id]
+                tgt = p.env.get(bm.obj)
+                if tgt is not None and isinstance(tgt.ty, T.Obj):
+                    c = self.reg.method_contract(tgt.ty.cls, bm.attr)
+                    if c is None:
+                        raise Unsupported(f"call of uncontracted method {tgt.ty.cls}.{bm.attr}")
+                    for f in c.modifies:
+                        fields.add((bm.obj, f))
+                elif bm.attr in MUTATORS:
+                    names.add(bm.obj)
             elif isinstance(n, ast.Call) and isinstance(n.func, ast.Name):
                 q = self.reg.resolve_function(n.func.id, self.cur_module)
                 if q is not None:
@@ -544,4 +555,39 @@ class StmtMixin:
         raise Unsupported(f"iteration over {v.ty}")
 
     def st_While(self, s, p):
-        raise Unsupported("while loop")
+        """while test: body  - cut by the sidecar invariant: (entry) it holds; (arbitrary iteration) invariant and test, after the body the
+        invariant again; (exit) invariant and not test.  Termination is not proved."""
+        if s.orelse:
+            raise Unsupported("while/else")
+        ordinal = self.loop_ord[id(s)]
+        invs = self.cur.invariants.get(ordinal)
+        if invs is None:
+            raise Unsupported(f"loop {ordinal} at line {s.lineno} has no invariant")
+        names, fields = self.modified_in(s.body, p)
+        pre_env = dict(p.env)
+        self.loop_pre[ordinal] = pre_env
+        tag = f"{self.cur.qual}:loop{ordinal}"
+        e = p.fork()
+        self.check_clauses(tag, "entry", invs, e, pre_env=pre_env)
+        body = p.fork(f"line {s.lineno}: loop {ordinal} arbitrary iteration")
+        self.havoc(body, names, fields, f"L{ordinal}")
+        self.assume_clauses(invs, body, pre_env=pre_env)
+        body.assume(self.truth(self.ev(s.test, body), body))
+        outs = []
+        if self.feasible(body):
+            for q, out in self.block(s.body, body):
+                if out in ("next", "continue"):
+                    self.check_clauses(tag, "preserved", invs, q, pre_env=pre_env)
+                    from .core import Obligation
+                    self.obls.append(Obligation(self.cur.qual, "canary", f"loop{ordinal}-body-feasible", 0, list(q.hyps), z3.BoolVal(False),
+                                                list(q.trace), "canary"))
+                elif out == "break":
+                    outs.append((q, "next"))
+                else:
+                    outs.append((q, out))
+        after = p.fork(f"line {s.lineno}: loop {ordinal} exit")
+        self.havoc(after, names, fields, f"L{ordinal}x")
+        self.assume_clauses(invs, after, pre_env=pre_env)
+        after.assume(z3.Not(self.truth(self.ev(s.test, after), after)))
+        outs.append((after, "next"))
+        return outs
